@@ -89,7 +89,7 @@ class Controller:
             self.cv.notify_all()
 
     # ---- called from the controlling (harness) thread -----------------------------------------------
-    def wait_quiescent(self, timeout=30.0):
+    def wait_quiescent(self, timeout=3.0):
         with self.cv:
             ok = self.cv.wait_for(lambda: self.running is None and self.grant is None and
                                   all(r in self.pending or r in self.finished for r in self.alive), timeout)
